@@ -95,6 +95,7 @@ type path struct {
 	asserted    bool
 	opaqueN     int
 	decided     map[*Term]bool
+	races       map[string]bool
 	obsVals     [][]value
 	obsTags     []string
 	obsStrs     []string
